@@ -27,7 +27,44 @@ def plan(tier):
     for n in range(1, bounds(tier)['nodes'] + 1):
         sh = 1 if n <= 4 else NSHARD
         units += [(n, k, sh) for k in range(sh)]
+    units += [('wide', k, 8) for k in range(8)]
     return units
+
+
+def wide_bodies():
+    """Quantifiers (plain and negated, both kinds) whose body is a connective (plain and negated) over 2-3 members with
+    alias atoms among them - one node or more beyond the general bound: the shapes the De Morgan and distribution
+    steps of the alias split work on."""
+    from itertools import permutations
+
+    from hplmc.universe import alias_field, num, this_field as tf
+
+    V = ('var', 'i')
+    atoms = [('bin', '>', V, num(0)), boolfrag.P, ('bin', '>', alias_field('A', 'x'), V), boolfrag.AP, boolfrag.BP, ('bin', '>', alias_field('A', 'x'), num(0))]
+    doms = [tf('xs'), ('set', (num(0), num(1)))]
+    out = []
+    for w in (2, 3):
+        for members in permutations(range(len(atoms)), w):
+            if not any(m in (2, 3, 5) for m in members) or not any(m in (0, 2) for m in members):
+                continue  # mentions @A and uses the bound variable
+            if w == 3 and members[0] > members[2]:
+                continue
+            ms = [atoms[m] for m in members]
+            for op in ('and', 'or', 'implies') if w == 2 else ('and', 'or'):
+                body = ms[0]
+                for m in ms[1:]:
+                    body = ('bin', op, body, m)
+                bodies = [body, ('un', 'not', body)]
+                if w == 3:
+                    right = ('bin', op, ms[0], ('bin', op, ms[1], ms[2]))
+                    bodies += [right, ('un', 'not', right)]
+                for bd in bodies:
+                    for q in ('forall', 'exists'):
+                        for d in doms:
+                            t = ('quant', q, 'i', d, bd)
+                            out.append(t)
+                            out.append(('un', 'not', t))
+    return out
 
 
 def free_vars(t, bound=()):
@@ -208,6 +245,24 @@ def signature(t, kind):
 
 
 def run(unit):
+    if unit[0] == 'wide':
+        _, k, shards = unit
+        r = Result()
+        for i, t in enumerate(wide_bodies()):
+            if i % shards != k:
+                continue
+            r.count('evaluations')
+            r.count('states')
+            r.count('nontrivial')
+            seen = set()
+            for pk, detail in check_term(t, r):
+                if pk in seen:
+                    continue
+                seen.add(pk)
+                r.violation(pk + ' [quantifier over a connective of 2-3 members]', {'term': t, 'text': _txt(t)}, detail, size=absyn.size(t))
+            r.count('validated')
+        r.sample({'wide_body': 'forall i in xs: not ((@i > 0) or (@A.x > @i))'})
+        return r
     n, k, shards = unit
     r = Result()
     g = boolfrag.grammar(True, quantifiers=True)
@@ -263,7 +318,7 @@ def replay(w):
 def describe(tier):
     b = bounds(tier)
     return {
-        'rule': f"every boolean term over atoms p q r (x > 0) (y = 1) True False @A.p (@A.x > 0) @B.p with not/and/or/implies/iff and forall/exists @i over xs, {{0,1}}, [0 to 1], @A.xs (bodies may use (@i > 0), (@A.x > @i)) with <= {b['nodes']} nodes; every term with <= 4 nodes that mentions @A also under chains of 2, 3 and 4 negations; for terms with <= 4 nodes the copies made by replace_var_with_this(A) / replace_this_with_var(C) of the already refactored object are refactored too (histories of depth 2); each refactored for aliases A, B and the absent C, as expression and as predicate; x every valuation (truth tables, numbers -1 0 1, arrays [] [0] [0,1]). Terms with <= 4 nodes that mention an alias are also refactored under 4 renamings that make alias and bound-variable names suffixes / prefixes of one another (AB / B, BA / B, xB and iA, i_A and A_i), for each of the related names. nontrivial = terms mentioning @A.",
+        'rule': f"every boolean term over atoms p q r (x > 0) (y = 1) True False @A.p (@A.x > 0) @B.p with not/and/or/implies/iff and forall/exists @i over xs, {{0,1}}, [0 to 1], @A.xs (bodies may use (@i > 0), (@A.x > @i)) with <= {b['nodes']} nodes; every term with <= 4 nodes that mentions @A also under chains of 2, 3 and 4 negations; for terms with <= 4 nodes the copies made by replace_var_with_this(A) / replace_this_with_var(C) of the already refactored object are refactored too (histories of depth 2); each refactored for aliases A, B and the absent C, as expression and as predicate; x every valuation (truth tables, numbers -1 0 1, arrays [] [0] [0,1]). Terms with <= 4 nodes that mention an alias are also refactored under 4 renamings that make alias and bound-variable names suffixes / prefixes of one another (AB / B, BA / B, xB and iA, i_A and A_i), for each of the related names. Plus quantifiers (plain and negated, both kinds, 2 domains) over plain and negated and / or / implies of 2-3 members that mention @A and the bound variable. nontrivial = terms mentioning @A.",
         'bounds': b,
         'exhaustive': True,
         'assumptions': ['reference evaluator; strict connectives'],
